@@ -18,6 +18,14 @@ P = {
    "Each of the 14 non-builder strategy implementations (best/majority/first/latest for attestation data, aggregate attestation, proposal, sync contribution, block root, header, signed block) is run against n=1..3 scripted nodes for every assignment of response kind x latency (x majority threshold), and for every order of same-instant events and select ties within the schedule bound; the oracle works on the observed return instant and the scripted arrival sets. Inputs, fault sequences and schedules are enumerated exhaustively within the alphabet.",
    "Trusted: virtual clock (computation is instantaneous); latency alphabet {0,<soft,=soft,between,=hard,never,late}; n<=3; nodes honour cancellation except the explicit late kind; builder-bid strategies are C09.",
    MC + " (n<=2 preemption-bounded, n=3 deviation-bounded)", "DESIGN.md §6 C07"),
+ "C08": ("model_checking",
+   "The real multinode submitter (8 submission kinds; sync.Cond + semaphore + util.Scatter under the controlled runtime) against n=1..3 scripted nodes: every assignment of behaviour (accept, reject, every client-specific tolerated rejection, malformed error JSON variants) x latency (0,<timeout,=timeout,>timeout,hang) x payload size x process concurrency, each explored over all schedules within a deviation bound (quick 1 for n<=2, 0 for n=3; thorough 2 / 1); plus the immediate submitter and all Scatter partitions. Fault sequences and inputs are enumerated completely within the alphabet.",
+   "Trusted: virtual clock; a node's chunk calls behave alike; tolerated-rejection table taken from the code's client/kind table; boundary instants admitted both ways.",
+   MC + " (deviation-bounded)", "DESIGN.md §6 C08"),
+ "C19": ("model_checking",
+   "All configuration trees over 4 (thorough 5) dotted levels with values present/absent and two distinct values per level, side nodes, 5 configuration sources (Set, YAML, YAML+default, environment, defaults), all lookup paths incl. siblings and look-alikes, for the 5 hierarchical accessors, compared with an independent longest-prefix reference. Configurations are the quantifier; the bounded tree space is enumerated completely.",
+   "Trusted: viper as configuration store; values vouch treats as 'no value' (0, empty) are outside the alphabet.",
+   SEQ, "DESIGN.md §6 C19"),
 }
 checks = []
 for pid in ids:
